@@ -322,11 +322,11 @@ def work_seed(args):
             b[p] ^= 1 << bit
             decode_message(bytes(b), f"{label}:flip{p}.{bit}", out)
     # every pair of flips within the message header and within each AVP header (first 6 AVPs quick)
-    regions = [(0, 20)] + [(s, h) for s, h, t, d in spans[: (len(spans) if tier == "thorough" else 4)]]
+    regions = [(0, 20)] + [(s, h) for s, h, t, d in spans[: (10 if tier == "thorough" else 4)]]
     for s, h in regions:
         bits = [(p, bit) for p in range(s, s + h) for bit in range(8)]
         for (p1, b1), (p2, b2) in itertools.combinations(bits, 2):
-            if tier != "thorough" and (p1 * 8 + b1 + p2 * 8 + b2) % 5:
+            if (p1 * 8 + b1 + p2 * 8 + b2) % (2 if tier == "thorough" else 5):
                 continue
             n += 1
             b = bytearray(wire)
@@ -459,7 +459,7 @@ def run(tier):
     rep.cov.update({"evaluations": total, "distinct_nontrivial": total, "exhaustive": True,
                     "rule": "per seed (one populated message per typed command, depth-1 containers, + an untyped one): every prefix, every "
                             "single-bit flip (all bytes of seeds <= 700 B quick / 1500 B thorough, else all header bytes), pairs of flips in the "
-                            "message header and the first AVP headers (every fifth pair quick, all thorough), every message/AVP/nested-AVP length "
+                            "message header and the first AVP headers (every fifth pair of the first 4 AVP headers quick, every second pair of the first 10 thorough), every message/AVP/nested-AVP length "
                             "field x 9 boundary values, typed and plain decode; every AVP type x payload length 0..20 x 9 fills bare and inside "
                             "typed/untyped/unknown commands; all byte strings of length <= 2; 3-symbol tails of length <= 8; chains to depth 16; "
                             "oracle: only packer.Error/AvpDecodeError escape, .value raises only AvpDecodeError, str() never raises, primitive "
